@@ -3,6 +3,7 @@ import TxdbusModel.Proofs.Client.LifecycleLost
 import TxdbusModel.Proofs.Client.LifecycleCancel
 import TxdbusModel.Proofs.Client.LifecycleWalk
 import TxdbusModel.Proofs.Client.EndpointsSpec
+import TxdbusModel.Proofs.Client.LifecycleHandshake
 /-!
 Property C09 - connecting always concludes; a lost connection fails all pending work once.
 
@@ -409,6 +410,294 @@ theorem prefix_model_violates_hello_without_name :
     let s := run .fiveFixes (connect [exEp]) h
     s.fired = [.connection] ∧ s.log.count (Fx.connCb 0) = 0 ∧ s.log.countP (Fx.completes 1) = 0 ∧ s.pending.length = 1 ∧
     (run .repaired (connect [exEp]) h).fired = [.helloNoName] := by decide
+
+/-! ## C09 x C07  the connect Deferred concludes THROUGH the handshake
+
+Composed model `Client/ConnectAuth.lean`: one connection attempt = C07's client protocol model (`AuthClient.Proto`,
+`connectionMade`, `dataReceived`) fed with the reads of server bytes, its outcome handed to the lifecycle model of this
+property as events (`authOk` when the handshake completes and Hello is sent; `authFailed` = the client's own
+`loseConnection` followed by the reactor's `connectionLost`; `close` = the peer closes; the Hello outcome decoded from
+the binary bytes - also those that arrived in the same read as the last handshake line).  In `connect_fires_once` the
+authentication events are free; here they are generated. -/
+
+end Txdbus.Client.Lifecycle
+
+namespace Txdbus.Client.ConnectAuth
+open Txdbus.Client.Endpoints Txdbus.Client.Lifecycle
+open Txdbus.AuthClient (Bytes clientRun)
+
+/-- For EVERY configuration of the client (preference list, transport kind, cookie environment), every decoder of
+the binary stream, every address walk `h0` that ended with an address connecting, and EVERY list of transport
+steps (reads of any bytes cut anywhere, `lost` at any point, any number of times) - with
+`s` the composed state afterwards:
+
+ * refinement: `s.life` is the run of the lifecycle model over `h0` followed by the GENERATED events `s.evs`, which
+   are exactly `expectedEvs s` (`authOk` iff C07's model ended authenticated, then the Hello outcome, then the
+   loss - `authFailed` iff the client itself had closed); `s.proto` is the run of C07's model over the delivered
+   reads, which are a prefix of the offered reads (all of them while the transport still delivers);
+ * the connect Deferred has fired at most once, and it has fired exactly when the attempt is terminated: the
+   transport was lost (a `lost` step, or bytes on which binary mode raises), or Hello was answered;
+ * what it fired with is `firedSpec s`: the connection iff C07's model ended authenticated AND the Hello reply with
+   a bus name arrived (an authenticated client is one that wrote BEGIN); in every other terminated run a failure:
+   the loss if the transport went away before any Hello answer - the client closed (mechanisms exhausted, line
+   outside the protocol, over-long line) and the reactor followed up, or the peer closed before OK, or between OK and
+   the Hello reply -, the Hello error, the missing name;
+ * and it stays that way whatever steps follow.
+
+NOT claimed, because it is false without an assumption on the environment: that every run terminates.  A server
+that neither answers nor closes leaves `s.terminated = false` and then nothing has fired (`firedSpec` = []); so
+does a reactor that does not follow the client's `loseConnection` with `connectionLost` (assumption T4 of
+ConnectAuth.lean - Twisted does).  The statement is "fired exactly once IFF terminated". -/
+theorem connect_concludes_through_handshake (cfg : Cfg) (hv : cfg.v = .repaired)
+    (eps : List Endpoint) (h0 : List Lifecycle.Ev)
+    (hph : (Lifecycle.run .repaired (connect eps) h0).phase = .authenticating) (steps : List Step) :
+    let s := run cfg (init cfg (Lifecycle.run .repaired (connect eps) h0)) steps
+    -- the two components are runs of the two models; the events are generated
+    (s.life = Lifecycle.run .repaired (connect eps) (h0 ++ s.evs) ∧ s.evs = expectedEvs s ∧
+     s.proto = clientRun cfg.pref cfg.unix cfg.envAt s.delivered ∧ s.delivered <+: readsOf steps ∧
+     (receiving s = true → s.delivered = readsOf steps)) ∧
+    -- exactly once, iff terminated
+    (s.life.fired.length ≤ 1 ∧ (s.life.fired.length = 1 ↔ s.terminated = true) ∧
+     (s.lost = true ↔ (Step.lost ∈ steps ∨ s.hello = some .garbage))) ∧
+    -- with what
+    (s.life.fired = firedSpec s ∧
+     (s.life.fired = [.connection] ↔ (s.proto.authenticated = true ∧ s.hello = some .named)) ∧
+     (s.hello.isSome = true → s.proto.authenticated = true) ∧
+     (s.proto.authenticated = true ↔ AuthClient.Ev.send (b!"BEGIN") ∈ s.proto.trace) ∧
+     (s.terminated = true → s.hello ≠ some .named → ∃ r, s.life.fired = [r] ∧ r ≠ .connection)) ∧
+    -- for good
+    (∀ more : List Step, s.terminated = true → (run cfg s more).life.fired = s.life.fired) := by
+  intro s
+  obtain ⟨hi0, _⟩ := reachable_inv eps h0
+  have hinv : Inv cfg (Lifecycle.run .repaired (connect eps) h0) s := inv_run steps (inv_init cfg _)
+  have hfired : s.life.fired = firedSpec s := fired_of_inv hinv hv hi0 hph
+  have hauthHello : s.hello.isSome = true → s.proto.authenticated = true := hinv.helloAuth
+  refine ⟨⟨?_, hinv.evsEq, hinv.protoEq, ?_, ?_⟩, ⟨?_, ?_, ?_⟩, ⟨hfired, ?_, hauthHello, ?_, ?_⟩, ?_⟩
+  · rw [hinv.lifeEq, hv, Lifecycle.run_append]
+  · obtain ⟨k, hk⟩ := delivered_prefix (cfg := cfg) steps (init cfg (Lifecycle.run .repaired (connect eps) h0))
+    have : s.delivered = [] ++ (readsOf steps).take k := hk
+    rw [List.nil_append] at this
+    rw [this]
+    exact List.take_prefix _ _
+  · intro hr
+    have : s.delivered = [] ++ readsOf steps :=
+      delivered_all (cfg := cfg) steps (init cfg (Lifecycle.run .repaired (connect eps) h0)) hr
+    rw [List.nil_append] at this
+    exact this
+  · rw [hfired]; unfold firedSpec; split <;> (try split) <;> simp
+  · rw [hfired]; unfold firedSpec St.terminated
+    cases hh : s.hello with
+    | none => cases hl : s.lost <;> simp
+    | some o => cases o <;> simp
+  · constructor
+    · intro hl
+      rcases run_lost_cause steps (s := init cfg (Lifecycle.run .repaired (connect eps) h0)) hl with h1 | h1 | h1
+      · simp [init] at h1
+      · exact Or.inl h1
+      · exact Or.inr h1
+    · rintro (h1 | h1)
+      · exact run_lost_of_mem steps h1
+      · exact hinv.garbLost h1
+  · rw [hfired]; unfold firedSpec
+    cases hh : s.hello with
+    | none => cases hl : s.lost <;> simp
+    | some o =>
+      have := hauthHello (by simp [hh])
+      cases o <;> simp [this]
+  · have hb := AuthClient.invB_clientRun cfg.pref cfg.unix cfg.envAt s.delivered
+    rw [← hinv.protoEq] at hb
+    exact hb.authIff
+  · intro ht hn
+    rw [hfired]; unfold firedSpec
+    unfold St.terminated at ht
+    cases hh : s.hello with
+    | none =>
+      have : s.lost = true := by simpa [hh] using ht
+      exact ⟨.lostEarly, by simp [this], by simp⟩
+    | some o =>
+      cases o with
+      | named => exact absurd hh hn
+      | unnamed => exact ⟨_, rfl, by simp⟩
+      | error => exact ⟨_, rfl, by simp⟩
+      | garbage => exact ⟨_, rfl, by simp⟩
+  · intro more ht
+    have hinv' : Inv cfg (Lifecycle.run .repaired (connect eps) h0) (run cfg s more) := inv_run more hinv
+    rw [fired_of_inv hinv' hv hi0 hph, hfired]
+    unfold St.terminated at ht
+    cases hh : s.hello with
+    | some o => unfold firedSpec; rw [run_hello_stable more hh, hh]; cases o <;> rfl
+    | none =>
+      have hl : s.lost = true := by simpa [hh] using ht
+      rw [run_of_lost more hl]
+
+/-- C07's model says WHEN the client closes the connection itself: a server that rejects every mechanism
+(`rejected_by_every_mechanism_closes`, below), a line outside the protocol (C07 `unknown_line_closes`), REJECTED or
+ERROR with nothing left (C07 `exhaustion_closes`), an over-long line.  For every list of reads `chunks` after which
+C07's client model has called `loseConnection` (any bytes, any cuts): in the composed model the client has closed
+without authenticating, the transport delivers nothing further, and
+ * as long as the reactor does not call `connectionLost` NOTHING fires (the shape of F13's silence; the missing
+   assumption T4 is exactly this call),
+ * and as soon as it does (`lost`, whatever follows) the connect Deferred has fired, once, with the failure
+   (`lostEarly`: the reason the transport closed with), through the event `authFailed` of the lifecycle model. -/
+theorem refused_authentication_fails_connect (cfg : Cfg) (hv : cfg.v = .repaired)
+    (eps : List Endpoint) (h0 : List Lifecycle.Ev)
+    (hph : (Lifecycle.run .repaired (connect eps) h0).phase = .authenticating) (chunks : List Bytes)
+    (hclosed : (clientRun cfg.pref cfg.unix cfg.envAt chunks).disconnecting = true) :
+    let s := run cfg (init cfg (Lifecycle.run .repaired (connect eps) h0)) (chunks.map Step.read)
+    (s.proto.disconnecting = true ∧ s.proto.authenticated = false ∧ s.lost = false ∧ s.life.fired = []) ∧
+    (∀ more : List Step, Step.lost ∉ more → (run cfg s more).life.fired = []) ∧
+    (∀ more : List Step, (run cfg s (Step.lost :: more)).life.fired = [.lostEarly] ∧
+      (run cfg s (Step.lost :: more)).evs = [.authFailed]) := by
+  intro s
+  obtain ⟨hi0, _⟩ := reachable_inv eps h0
+  have hinv : Inv cfg (Lifecycle.run .repaired (connect eps) h0) s := inv_run _ (inv_init cfg _)
+  have hex := clientRun_exclusive cfg.pref cfg.unix cfg.envAt s.delivered
+  rw [← hinv.protoEq] at hex
+  -- the delivered reads are a prefix of `chunks`
+  obtain ⟨k, hk⟩ := delivered_prefix (cfg := cfg) (chunks.map Step.read) (init cfg (Lifecycle.run .repaired (connect eps) h0))
+  have hdel : s.delivered = chunks.take k := by
+    have : s.delivered = [] ++ (readsOf (chunks.map Step.read)).take k := hk
+    rw [List.nil_append, readsOf_map_read] at this
+    exact this
+  have hmono := clientRun_mono cfg.pref cfg.unix cfg.envAt (chunks.take k) (chunks.drop k)
+  rw [List.take_append_drop, ← hdel, ← hinv.protoEq] at hmono
+  have hnl : s.lost = false := by
+    cases hl : s.lost with
+    | false => rfl
+    | true =>
+      rcases run_lost_cause (chunks.map Step.read) (s := init cfg (Lifecycle.run .repaired (connect eps) h0)) hl with h1 | h1 | h1
+      · simp [init] at h1
+      · exact absurd h1 (lost_not_mem_map_read chunks)
+      · have ha := hinv.helloAuth (by rw [h1]; rfl)
+        exact absurd ⟨hclosed, hmono.2 ha⟩ (clientRun_exclusive cfg.pref cfg.unix cfg.envAt chunks)
+  have hd : s.proto.disconnecting = true := by
+    cases hr : receiving s with
+    | true =>
+      have hall : s.delivered = [] ++ readsOf (chunks.map Step.read) :=
+        delivered_all (cfg := cfg) (chunks.map Step.read) (init cfg (Lifecycle.run .repaired (connect eps) h0)) hr
+      rw [List.nil_append, readsOf_map_read] at hall
+      have hp := hinv.protoEq
+      rw [hall] at hp
+      rw [hp]; exact hclosed
+    | false =>
+      simpa [receiving, hnl] using hr
+  have ha : s.proto.authenticated = false := by
+    cases h : s.proto.authenticated with
+    | false => rfl
+    | true => exact absurd ⟨hd, h⟩ hex
+  have hh : s.hello = none := by
+    cases h : s.hello with
+    | none => rfl
+    | some o => have := hinv.helloAuth (by simp [h]); simp [ha] at this
+  have hnr : receiving s = false := by simp [receiving, hd]
+  refine ⟨⟨hd, ha, hnl, ?_⟩, ?_, ?_⟩
+  · rw [fired_of_inv hinv hv hi0 hph]; simp [firedSpec, hh, hnl]
+  · intro more hm
+    have hinv' : Inv cfg (Lifecycle.run .repaired (connect eps) h0) (run cfg s more) := inv_run more hinv
+    obtain ⟨_, _, _, h4⟩ := run_not_receiving (cfg := cfg) more hnr
+    have hl' : (run cfg s more).lost = false := by
+      cases hl : (run cfg s more).lost with
+      | false => rfl
+      | true =>
+        rcases run_lost_cause more hl with h1 | h1 | h1
+        · simp [hnl] at h1
+        · exact absurd h1 hm
+        · rw [h4, hh] at h1; cases h1
+    rw [fired_of_inv hinv' hv hi0 hph]
+    simp [firedSpec, h4, hh, hl']
+  · intro more
+    have hstep : (step cfg s .lost).lost = true := step_lost_sets s
+    have hrun : run cfg s (Step.lost :: more) = step cfg s .lost := by
+      simp only [run]; exact run_of_lost more hstep
+    have hinv' : Inv cfg (Lifecycle.run .repaired (connect eps) h0) (step cfg s .lost) := inv_step hinv .lost
+    rw [hrun]
+    have e1 : (step cfg s .lost).hello = none := by simp [step, hnl, feed, hh]
+    have e2 : (step cfg s .lost).proto = s.proto := by simp [step, hnl, feed]
+    constructor
+    · rw [fired_of_inv hinv' hv hi0 hph]; simp [firedSpec, e1, hstep]
+    · rw [hinv'.evsEq]; simp [expectedEvs, e1, e2, hstep, ha, hd]
+
+/-- "The server rejects every mechanism", literally: for every preference list, transport kind and environment, a
+server that answers `REJECTED` to each AUTH line makes the client close (C07's model), and then - given the
+reactor's `connectionLost` - the connect Deferred of the attempt fails; before that call nothing has fired. -/
+theorem rejected_by_every_mechanism_fails_connect (cfg : Cfg) (hv : cfg.v = .repaired)
+    (eps : List Endpoint) (h0 : List Lifecycle.Ev)
+    (hph : (Lifecycle.run .repaired (connect eps) h0).phase = .authenticating) :
+    let rejections := (List.replicate cfg.pref.length REJ).map Step.read
+    (run cfg (init cfg (Lifecycle.run .repaired (connect eps) h0)) rejections).proto.disconnecting = true ∧
+    (run cfg (init cfg (Lifecycle.run .repaired (connect eps) h0)) rejections).life.fired = [] ∧
+    (run cfg (init cfg (Lifecycle.run .repaired (connect eps) h0)) (rejections ++ [Step.lost])).life.fired = [.lostEarly] := by
+  have h := refused_authentication_fails_connect cfg hv eps h0 hph (List.replicate cfg.pref.length REJ)
+    (rejected_by_every_mechanism_closes cfg.pref cfg.unix cfg.envAt)
+  simp only at h
+  refine ⟨h.1.1, h.1.2.2.2, ?_⟩
+  rw [run_append]
+  exact (h.2.2 []).1
+
+/-! ### the hypotheses are satisfiable; concrete attempts -/
+
+def exEnv : AuthClient.Env :=
+  { user := b!"root", dirStat := none, file := fun _ => none, rnd := [1, 2, 3, 4, 5, 6, 7, 8],
+    sha1 := fun x => x.take 2, errText := fun _ => b!"e" }
+
+/-- The answer to Hello is complete once 4 binary bytes are there (a stand-in for the framing of C04). -/
+def exCfg (v : Lifecycle.Variant) (unix : Bool) (o : HelloOutcome) : Cfg :=
+  { v := v, pref := Txdbus.Gen.ClientAuth.preference, unix := unix, envAt := fun _ => exEnv,
+    decode := fun b => if b.length ≥ 4 then some o else none }
+
+/-- An address walk that ends with an address connecting: the hypothesis `hph` of the theorems. -/
+example : (Lifecycle.run .repaired (connect [exUnix, exEp]) [.attemptFails .refused, .attemptConnects]).phase = .authenticating := by
+  decide
+
+/-- EXTERNAL refused, DBUS_COOKIE_SHA1 accepted, descriptor passing agreed; the OK line is cut inside its
+delimiter, and the last handshake line arrives in ONE read with the first two bytes of the Hello reply: the
+connection is handed out when the reply is complete. -/
+example :
+    let s := attempt (exCfg .repaired true .named) exUnix
+      [.read (b!"REJECTED\r"), .read (b!"\nOK 1234\r\n"), .read (b!"AGREE_UNIX_FD\r\nl\x01"), .read [0, 1]]
+    s.life.fired = [.connection] ∧ s.evs = [.authOk, .helloReply true] ∧ s.life.phase = .ready ∧
+    s.proto.binary = [108, 1, 0, 1] ∧ s.terminated = true := by decide
+
+/-- The same handshake; the answer to Hello is an error / has no name / is not a message; the peer closes between
+OK and the Hello reply; the peer closes before OK. -/
+example :
+    (attempt (exCfg .repaired false .error) exEp [.read (b!"OK 1234\r\nabcd")]).life.fired = [.helloError] ∧
+    (attempt (exCfg .repaired false .unnamed) exEp [.read (b!"OK 1234\r\nabcd"), .lost]).life.fired = [.helloNoName] ∧
+    (attempt (exCfg .repaired false .garbage) exEp [.read (b!"OK 1234\r\nabcd")]).life.fired = [.lostEarly] ∧
+    (attempt (exCfg .repaired false .named) exEp [.read (b!"OK 1234\r\nab"), .lost, .read (b!"cd")]).life.fired = [.lostEarly] ∧
+    (attempt (exCfg .repaired false .named) exEp [.read (b!"OK 12"), .lost]).life.fired = [.lostEarly] ∧
+    (attempt (exCfg .repaired false .named) exEp [.read (b!"OK 12"), .lost]).evs = [.close] := by decide
+
+/-- A line outside the protocol: the client closes; nothing fires until the reactor's `connectionLost`; a server
+that stays silent: nothing fires, and nothing is claimed. -/
+example :
+    (attempt (exCfg .repaired false .named) exEp [.read (b!"HELLO\r\n"), .read (b!"OK 1234\r\n")]).life.fired = [] ∧
+    (attempt (exCfg .repaired false .named) exEp [.read (b!"HELLO\r\n"), .read (b!"OK 1234\r\n")]).proto.disconnecting = true ∧
+    (attempt (exCfg .repaired false .named) exEp [.read (b!"HELLO\r\n"), .read (b!"OK 1234\r\n"), .lost]).life.fired = [.lostEarly] ∧
+    (attempt (exCfg .repaired false .named) exEp [.read (b!"REJECTED\r\n"), .read (b!"DATA")]).life.fired = [] := by decide
+
+/-- F13 through the handshake (the shape repaired by b4dae9b = fixes/C09-01): the server rejects EXTERNAL,
+DBUS_COOKIE_SHA1 and ANONYMOUS; the client calls `loseConnection`; the reactor calls `connectionLost`.  On the
+model of the pinned client.py the connect Deferred never fires; on the repaired one it fails. -/
+theorem prefix_model_violates_connect_fires_through_handshake :
+    let refused : List Step := [.read REJ, .read REJ, .read REJ, .lost]
+    (attempt (exCfg .original false .named) exEp refused).proto.disconnecting = true ∧
+    (attempt (exCfg .original false .named) exEp refused).evs = [.authFailed] ∧
+    (attempt (exCfg .original false .named) exEp refused).life.fired = [] ∧
+    (attempt (exCfg .repaired false .named) exEp refused).life.fired = [.lostEarly] ∧
+    -- the peer closes between OK and the Hello reply
+    (attempt (exCfg .original false .named) exEp [.read (b!"OK 1234\r\n"), .lost]).life.fired = [] ∧
+    (attempt (exCfg .repaired false .named) exEp [.read (b!"OK 1234\r\n"), .lost]).life.fired = [.lostEarly] := by
+  decide
+
+#print axioms connect_concludes_through_handshake
+#print axioms refused_authentication_fails_connect
+#print axioms rejected_by_every_mechanism_fails_connect
+#print axioms prefix_model_violates_connect_fires_through_handshake
+
+end Txdbus.Client.ConnectAuth
+
+namespace Txdbus.Client.Lifecycle
 
 #print axioms prefix_model_violates_raising_callback
 #print axioms prefix_model_violates_hello_without_name
